@@ -8,13 +8,17 @@ SPEC = dict(
                "z_pack_relative_relocs; initial-exec slots of locally defined TLS variables (need the full Layout) are outside; "
                "relocation-site RELR/RELA accounting (apply_relocation) is outside.",
     overlays=[(W, "harness/libwild/elf_writer_c23.rs")],
-    jobs=1,
-    harnesses=[dict(fn="c23_allocation_matches_writer", file=W, timeout=1500)],
+    jobs=3,
+    # ~6 min and ~10 GB each: three representative (output kind, RELR) pairs per change, all ten in the thorough tier
+    harnesses=[dict(fn=f"c23_alloc_{n}", file=W, timeout=1500, tiers=t) for n, t in [
+        ("dyn_nonreloc_relr", ["quick", "thorough"]), ("dyn_pie_relr", ["quick", "thorough"]), ("shared", ["quick", "thorough"]),
+        ("static_nonreloc", ["thorough"]), ("static_nonreloc_relr", ["thorough"]), ("static_pie", ["thorough"]),
+        ("static_pie_relr", ["thorough"]), ("dyn_nonreloc", ["thorough"]), ("dyn_pie", ["thorough"]), ("shared_relr", ["thorough"])]],
     functions_encoded=["elf::Elf::allocate_resolution", "elf::Elf::create_resolution", "elf_writer::TableWriter::process_resolution",
                        "TableWriter::{process_got_tls_offset,process_got_tls_mod_and_offset,process_got_tls_descriptor,write_address_relocation,"
                        "write_ifunc_relocation,write_dynamic_symbol_relocation,write_plt_entry,take_next_got_entry}", "layout::compute_allocations"],
-    bounds="one symbol resolution; all 2^16 ValueFlags values satisfying the stated realism constraints x 5 output kinds x relr on/off x raw value in [0x10000, 2^40)",
-    outside_bounds="symtab/strtab/eh_frame/version accounting; relocation sites (process_relocation vs apply_relocation: rel.offset() parity vs place parity); "
+    bounds="one non-TLS symbol resolution; all ValueFlags values satisfying the stated realism constraints x (output kind, RELR) pairs (3 per quick run, all 10 in thorough) x raw value in [0x10000, 2^40)",
+    outside_bounds="TLS resolutions (GOT_TLS_* flags: the harness reports a mismatch for some flag combination, but trace generation for the counterexample exceeds 30 GB, so it could be neither replayed nor triaged - not claimed); symtab/strtab/eh_frame/version accounting; relocation sites (process_relocation vs apply_relocation: rel.offset() parity vs place parity); "
                    "-r outputs; flag combinations excluded by c23_flags",
     stubs=["std::fmt::format"],
 )
